@@ -64,10 +64,14 @@ static inline bool t_is_greatest_below(const TS *t, B v, B r){
   return ok; }
 
 /* ---- postconditions (macros over `self`, `v`, `ret`, ... so that contracts.c and replay.cpp evaluate the same text) */
-/* get_next(v): a member, >= v; +oo for +oo, otherwise the least threshold STRICTLY above v (std::upper_bound) */
-#define POST_get_next(self, v, ret) (b_ok(ret) && t_mem(self, ret) && b_le(v, ret) && (b_pinf(v) ? b_pinf(ret) : t_is_least_above(self, v, ret)))
-/* get_prev(v): a member, <= v; -oo for -oo, otherwise the greatest threshold STRICTLY below v */
-#define POST_get_prev(self, v, ret) (b_ok(ret) && t_mem(self, ret) && b_le(ret, v) && (b_minf(v) ? b_minf(ret) : t_is_greatest_below(self, v, ret)))
+/* get_next(v): what C05 needs of it (coverage + the rank argument): a MEMBER of the set that is >= v, +oo for +oo.
+ * Which member (the code takes the least threshold STRICTLY above v, std::upper_bound) is a matter of precision, not of
+ * C05: a first version demanded exactly that and would have raised an alarm on the harmless variant "least threshold
+ * >= v" (DESIGN 8.4); the rank lemma (check i_widen_ts) is proved of the real widening_thresholds with get_next /
+ * get_prev in line and does not rely on this contract. */
+#define POST_get_next(self, v, ret) (b_ok(ret) && t_mem(self, ret) && b_le(v, ret) && (b_pinf(v) ? b_pinf(ret) : 1))
+/* get_prev(v): a member, <= v; -oo for -oo */
+#define POST_get_prev(self, v, ret) (b_ok(ret) && t_mem(self, ret) && b_le(ret, v) && (b_minf(v) ? b_minf(ret) : 1))
 
 /* ---- widening with thresholds: rank of an interval w.r.t. a thresholds object.
  * rank(bottom) = 2n+1, rank([l,u]) = #{t in T : t < l} + #{t in T : t > u}  (0 <= rank <= 2n+1).
